@@ -8,7 +8,11 @@
 // Part 2 (odd case numbers): zoom_image.  Random images/zooms/offsets/sizes and the three ZoomOptions:
 // sum conservation and centre of mass (when the new grid covers the object), uniform stays uniform under
 // preserve_values, the options differ by a global factor only, one call == in place == 2-argument form ==
-// two-step (xy then z, xy-only overload) within computed bands.
+// two-step (xy then z, xy-only overload) within computed bands; the input's z index range need not start at 0.
+//
+// Deliberately NOT checked (not consequences of the C15 statement, see vlib/propdefs/c15.py level_note): that
+// SSRB(ProjDataInfo) rejects illegal arguments, and which grid the xy-only overload returns through its
+// "nothing to do" shortcut.
 #include "common/verif.h"
 #include "common/gen.h"
 #include "stir/SSRB.h"
@@ -993,8 +997,9 @@ zoom_case(Ctx& ctx)
   else
     {
       // (d) two steps: (x,y) first, then z
-      ctx.heartbeat("zoom-two-step");
       const bool use_xy_overload = zm[1] == zm[2] && ns[1] == ns[2] && rng.coin(0.6);
+      const std::string in_class = use_xy_overload && gin.mn[0] != 0 ? ":input-min-z-nonzero" : "";
+      ctx.heartbeat(std::string("zoom-two-step") + (use_xy_overload ? ":xy-overload-first" : ":3d-overloads") + in_class);
       Img step1 = use_xy_overload ? zoom_image(in, zm[2], off[2], off[1], ns[2], mkopt(opt))
                                   : zoom_image(in, CartesianCoordinate3D<float>(1.f, zm[1], zm[2]), CartesianCoordinate3D<float>(0.f, off[1], off[2]),
                                                Coordinate3D<int>(n[0], ns[1], ns[2]), mkopt(opt));
@@ -1004,7 +1009,8 @@ zoom_case(Ctx& ctx)
       const double M2 = std::max(M, std::max(stats_of(step1).max_abs * (1 / zeff[0]) * (opt == 0 ? 1. : zeff[0]), stats_of(step2).max_abs));
       if (!geo_close(geo_of(step2), w) || !images_close(step2, r1, comp_band * (M2 / (M > 0 ? M : 1)) + 1e-37, w))
         {
-          ctx.violation(std::string("zoom-two-step-differs-from-one-call:") + optname(opt) + (use_xy_overload ? ":xy-overload-first" : ":3d-overloads"),
+          ctx.violation(std::string("zoom-two-step-differs-from-one-call:") + optname(opt) + (use_xy_overload ? ":xy-overload-first" : ":3d-overloads")
+                            + in_class,
                         geos(geo_of(step2)) + " vs " + geos(g1) + " " + w);
           return;
         }
